@@ -120,6 +120,13 @@ var c08Cfg = world.Config{Pools: "[" +
 	poolJSON([]string{"10.0.1.0/24", "10.0.2.0/24"}, []string{"10.10.2.1~10.10.2.2"}, "10.10.2.0/24", "10.10.2.254", 2) + "]",
 	Nodes: []world.NodeSpec{{Name: "n1", IP: "10.0.1.11"}, {Name: "n2", IP: "10.0.2.11"}}}
 
+// c08CfgShared: the same addresses, but both pools declare one pod subnet (10.10.0.0/16): which node an IP is routable from is
+// a matter of its pool, not of its subnet.
+var c08CfgShared = world.Config{Pools: "[" +
+	poolJSON([]string{"10.0.1.0/24"}, []string{"10.10.1.1~10.10.1.4"}, "10.10.0.0/16", "10.10.0.254", 0) + "," +
+	poolJSON([]string{"10.0.1.0/24", "10.0.2.0/24"}, []string{"10.10.2.1~10.10.2.2"}, "10.10.0.0/16", "10.10.0.254", 0) + "]",
+	Nodes: []world.NodeSpec{{Name: "n1", IP: "10.0.1.11"}, {Name: "n2", IP: "10.0.2.11"}}}
+
 // menu of requested range lists (JSON arrays of range strings)
 var c08Menu = [][]string{
 	{"10.10.1.1"},              // single address
@@ -228,7 +235,8 @@ func c08Job(shard, nshards, maxK, maxBusy int) Job {
 						r.exhausted = false
 						return r.toScen(name, t0, map[string]int{"k": maxK, "prealloc": maxBusy, "faults": 1})
 					}
-					c08Case(r, name, ips, pod, key, req, st, node)
+					c08Case(r, name, c08Cfg, "", ips, pod, key, req, st, node)
+					c08Case(r, name, c08CfgShared, "shared-pod-subnet ", ips, pod, key, req, st, node)
 				}
 			}
 		}
@@ -236,11 +244,11 @@ func c08Job(shard, nshards, maxK, maxBusy int) Job {
 	}}
 }
 
-func c08Case(r *caseResult, scen string, ips []string, pod world.PodSpec, key string, req []int, st []int, node string) {
+func c08Case(r *caseResult, scen string, cfg world.Config, cfgName string, ips []string, pod world.PodSpec, key string, req []int, st []int, node string) {
 	pod.Ranges = rangesJSON(req)
-	desc := fmt.Sprintf("request %s state %v node %s", pod.Ranges, stateStr(ips, st), node)
+	desc := fmt.Sprintf("%srequest %s state %v node %s", cfgName, pod.Ranges, stateStr(ips, st), node)
 	build := func() *world.World {
-		w := world.New(c08Cfg)
+		w := world.New(cfg)
 		if err := w.Start(); err != nil {
 			panic(err)
 		}
@@ -277,7 +285,28 @@ func c08Case(r *caseResult, scen string, ips []string, pod world.PodSpec, key st
 	err := w.Bind(p.Namespace, p.Name, string(p.UID), node)
 	ncalls := w.FaultCount()
 	r.evals++
-	c08Check(r, scen, desc, "none", w, pod, key, req, node, before, err)
+	c08Check(r, scen, cfg, desc, "none", w, pod, key, req, node, before, err)
+	// stale filter: after Filter, other pods take every free IP of the first requested range that is routable from the node
+	{
+		w := build()
+		p := w.Pods[pod.Key()]
+		_, _ = w.Filter(pod.Key())
+		taken := 0
+		for i, ip := range ips {
+			if st[i] == 0 && inRangeList(ip, c08Menu[req[0]]) && routableNodes(cfg, ip)[node] {
+				if preAllocate(w, ip, "sts_ns_thief_thief-0", "ut") == nil {
+					taken++
+				}
+			}
+		}
+		if taken > 0 {
+			before := ownedIPs(w, key)
+			err := w.Bind(p.Namespace, p.Name, string(p.UID), node)
+			r.evals++
+			c08Check(r, scen, cfg, desc+" (free routable IPs of the first range taken after Filter)", "stale-filter", w, pod, key, req, node, before, err)
+			r.distinct[hashOf(desc, "stale", err == nil, ownedIPs(w, key))] = true
+		}
+	}
 	r.distinct[hashOf(desc, 0, err == nil, ownedIPs(w, key))] = true
 	if len(r.samples) < 3 && r.evals%173 == 1 {
 		r.samples = append(r.samples, fmt.Sprintf("%s -> err=%v owned=%v", desc, err, ownedIPs(w, key)))
@@ -297,7 +326,7 @@ func c08Case(r *caseResult, scen string, ips []string, pod world.PodSpec, key st
 				failed = strings.Fields(l)[1] + "-" + strings.Fields(l)[2]
 			}
 		}
-		c08Check(r, scen, desc+fmt.Sprintf(" fault@%d(%s)", k, failed), "fault:"+failed, w, pod, key, req, node, before, err)
+		c08Check(r, scen, cfg, desc+fmt.Sprintf(" fault@%d(%s)", k, failed), "fault:"+failed, w, pod, key, req, node, before, err)
 		r.distinct[hashOf(desc, k, err == nil, ownedIPs(w, key))] = true
 	}
 }
@@ -314,7 +343,7 @@ func stateStr(ips []string, st []int) string {
 	return "{" + strings.Join(b, " ") + "}"
 }
 
-func c08Check(r *caseResult, scen, desc, mode string, w *world.World, pod world.PodSpec, key string, req []int, node string, before []string, err error) {
+func c08Check(r *caseResult, scen string, cfg world.Config, desc, mode string, w *world.World, pod world.PodSpec, key string, req []int, node string, before []string, err error) {
 	class := fmt.Sprintf("k=%d", len(req))
 	after := ownedIPs(w, key)
 	if err != nil {
@@ -334,7 +363,7 @@ func c08Check(r *caseResult, scen, desc, mode string, w *world.World, pod world.
 		return
 	}
 	seen := map[string]bool{}
-	routable := func(ip string) bool { return routableNodes(c08Cfg, ip)[node] }
+	routable := func(ip string) bool { return routableNodes(cfg, ip)[node] }
 	for i, ip := range b.IPs {
 		if seen[ip] {
 			r.violate("C08", scen, class, "duplicate-ip", mode, fmt.Sprintf("%s: got %v", desc, b.IPs), []string{desc})
@@ -596,6 +625,37 @@ func c06CaseR(r *caseResult, scen string, ci int, cfg world.Config, ips, busy []
 			if info.IP == nil || net.IP(info.IP.Mask).String() != net.IP(pool.Mask).String() || !info.Gateway.Equal(pool.Gateway) || info.Vlan != pool.Vlan {
 				r.violate("C06", scen, class, "ipinfo-not-from-the-ips-pool", "bind", fmt.Sprintf("%s: %s written with mask %v gw %v vlan %d, pool has mask %v gw %v vlan %d",
 					desc, ip, info.IP, info.Gateway, info.Vlan, net.IP(pool.Mask), pool.Gateway, pool.Vlan), []string{desc})
+			}
+		}
+	}
+	// stale filter: between Filter and Bind other pods take every free IP that is routable from the offered node; Bind must
+	// then fail or still hand out an IP that is routable from that node
+	for _, node := range offered {
+		w3 := build()
+		if _, err := w3.Filter(pd.Spec.Key()); err != nil {
+			continue
+		}
+		taken := 0
+		for _, ip := range ips {
+			if !isBusy[ip] && ip != pd.Holder && ip != pd.Reserve && routableNodes(cfg, ip)[node] {
+				if preAllocate(w3, ip, "sts_ns_thief_thief-0", "ut") == nil {
+					taken++
+				}
+			}
+		}
+		if taken == 0 {
+			continue
+		}
+		p := w3.Pods[pd.Spec.Key()]
+		nb := len(w3.Bindings)
+		err := w3.Bind(p.Namespace, p.Name, string(p.UID), node)
+		r.evals++
+		if err != nil || len(w3.Bindings) == nb {
+			continue
+		}
+		for _, ip := range w3.Bindings[len(w3.Bindings)-1].IPs {
+			if !routableNodes(cfg, ip)[node] {
+				r.violate("C06", scen, class, "bound-ip-not-routable-after-stale-filter", "bind", fmt.Sprintf("%s: the free IPs routable from %s were taken after Filter; Bind on %s still succeeded with %s", desc, node, node, ip), []string{desc})
 			}
 		}
 	}
